@@ -251,7 +251,14 @@ def interesting(t, defs, req, sizes=CONTAINER_SIZES, strlens=STRLENS):
     if k == "struct":
         # a full nested value, and a sparse one (every optional / nil-able member absent): decoded over a fuller
         # destination, nothing of the old nested value may remain
-        return [base_value(t, defs, 2, 5), zero_struct(t["s"], defs)]
+        out = [base_value(t, defs, 2, 5), zero_struct(t["s"], defs)]
+        # the first declared field zero (the struct's first machine word), the rest as in the full value
+        fs = defs[t["s"]]["fields"]
+        if len(fs) > 1:
+            v = {"f": dict(out[0]["f"]), "unk": []}
+            v["f"][fs[0]["key"]] = zero(fs[0]["t"], defs)
+            out.append(v)
+        return out
     raise ValueError(k)
 
 
